@@ -407,6 +407,6 @@ U_SER_QUICK = U_SER_ALL
 S_LAZY_ALL = ["s_lazy::bw_find", "s_lazy::bw_overlapping", "s_lazy::bw_no_suffix",
               "s_lazy::cw_find", "s_lazy::cw_overlapping", "s_lazy::cw_no_suffix"]
 S_OWN = ["s_lazy::bw_owned_find", "s_lazy::bw_owned_overlapping", "s_lazy::bw_owned_no_suffix"]
-S_LAZY_QUICK = list(S_LAZY_ALL) + S_OWN
+S_LAZY_QUICK = list(S_LAZY_ALL)     # S-own: thorough only (3 x ~150 s would push C12 quick past its 900 s budget)
 S_LAZY_ALL = S_LAZY_ALL + S_OWN
 S_LAZY_ALL = S_LAZY_ALL + ["s_lazy::bw_overlapping_full", "s_lazy::cw_overlapping_full"]
